@@ -183,6 +183,13 @@ def gen_case(ctx: Ctx, small: list[Any]) -> dict[str, Any]:
     if buffer:  # anchors so that the window is [1 min, 9 min]
         traces.append((names[0], "lo", small[0], (0, 5)))
         traces.append((names[0], "hi", small[0], (10 * MIN - 5, 10 * MIN)))
+    if r.random() < 0.3:
+        # span types that differ only by blanks at the edges, by case, by a leading zero, or that contain one another:
+        # different types, hence different shapes
+        m = dict(zip("ABC", r.choice([("pay", "pay ", " pay"), ("A", " A", "A "), ("ab", "a", "b"), ("1", "01", "1.0"),
+                                      ("e", "E", "\u00e9"), ("x", "xx", "x x")])))
+        traces = [(nm, jid, (ps, tuple(m[x] for x in ls)), iv) for nm, jid, (ps, ls), iv in traces]
+        ctx.tick("types_near_duplicates")
     events = build_store(r, traces, shuffle=True)
     batch = r.choice([1, 2, 3, 1000])
     ctx.tick(f"batch{batch}")
